@@ -17,6 +17,7 @@ from .._exceptions import (
     ConnectionNotAvailable,
     LocalProtocolError,
     RemoteProtocolError,
+    WriteError,
 )
 from .._models import Origin, Request, Response
 from .._synchronization import Lock, Semaphore, ShieldCancellation
@@ -501,7 +502,7 @@ class HTTP2Connection(ConnectionInterface):
 
             try:
                 self._network_stream.write(data_to_send, timeout)
-            except Exception as exc:  # pragma: nocover
+            except BaseException as exc:  # pragma: nocover
                 # If we get a network error we should:
                 #
                 # 1. Save the exception and just raise it immediately on any future write.
@@ -510,7 +511,15 @@ class HTTP2Connection(ConnectionInterface):
                 #    sequential timeouts.)
                 # 2. Mark the connection as errored, so that we don't accept any other
                 #    incoming requests.
-                self._write_exception = exc
+                #
+                # The same goes for a write that is cancelled: the frames that we took
+                # from the h2 state, for every stream, may be lost or sent only in part.
+                if isinstance(exc, Exception):
+                    self._write_exception = exc
+                else:
+                    self._write_exception = WriteError(
+                        "An earlier write on this connection was interrupted."
+                    )
                 self._connection_error = True
                 raise exc
 
